@@ -552,9 +552,11 @@ pub fn query(g: &G, t: &mut Toks, o: &mut Out) {
         // ---- C03's "consequently" clause: what the weighted algorithms report for the graph this history
         // produced (oracle-only observations, kinds 50xx: recomputed in Python from get_all_edges alone) ----
         "alg_sssp" => {
-            let (x, w) = (t.i(), t.i() != 0);
+            // third argument: option combination 0 = distances only (fast path), 1 = first_only + paths, 2 = all paths
+            let (x, w, opt) = (t.i(), t.i() != 0, t.i());
             let f = if w { wfactor() } else { 1.0 };
-            let r = guard(|| graphrs::algorithms::shortest_path::dijkstra::single_source(g, w, x, None, None, false, false));
+            let (fo, wp) = match opt { 1 => (true, true), 2 => (false, true), _ => (false, false) };
+            let r = guard(|| graphrs::algorithms::shortest_path::dijkstra::single_source(g, w, x, None, None, fo, wp));
             o.obs(5001, &[vec![res_code(&r)]], &[]);
             if let Some(Ok(m)) = r {
                 let mut kv: Vec<(i64, f64)> = m.iter().map(|(k, i)| (*k, i.distance / f)).collect();
